@@ -24,10 +24,18 @@ def module(cfile, extra_macros=()):
     m = _cache.get(key)
     if m is not None:
         return m
-    path = os.path.join(SRC, cfile)
-    with open(path, 'rb') as f:
-        sources_used[cfile] = hashlib.sha256(f.read()).hexdigest()
     d = tempfile.mkdtemp(prefix="llsym_")
+    parts = cfile.split('+')
+    for part in parts:
+        with open(os.path.join(SRC, part), 'rb') as f:
+            sources_used[part] = hashlib.sha256(f.read()).hexdigest()
+    if len(parts) > 1:
+        # several translation units of one extension module, analysed as a single unit ("a.c+b.c")
+        path = os.path.join(d, "unit.c")
+        with open(path, 'w') as f:
+            f.write("".join('#include "%s"\n' % os.path.join(SRC, part) for part in parts))
+    else:
+        path = os.path.join(SRC, cfile)
     try:
         raw = os.path.join(d, "a.ll")
         out = os.path.join(d, "b.ll")
@@ -47,5 +55,28 @@ def module(cfile, extra_macros=()):
     finally:
         shutil.rmtree(d, ignore_errors=True)
     m = ir.parse(text, cfile)
+    m.text = text
     _cache[key] = m
     return m
+
+
+def written_globals(cfile, extra_macros=()):
+    """module globals that are not constants and are the target of a store / memory intrinsic / passed by
+    address to a call somewhere in the module (syntactic confirmation of a 'writable static' on the IR the
+    compiler produced; used by the concrete replay, where ctypes cannot observe module-private storage)"""
+    import re
+    m = module(cfile, extra_macros)
+    out = []
+    for name, (t, init, is_const) in m.globals.items():
+        if is_const:
+            continue
+        pat = re.compile(r'@' + re.escape(name.lstrip('@')) + r'\b')
+        for line in m.text.splitlines():
+            ls = line.strip()
+            if not pat.search(ls) or ls.startswith('@') or ls.startswith(';'):
+                continue
+            if re.match(r'(%[\w.]+ = )?load ', ls) and not re.search(r'store ', ls):
+                continue
+            out.append(name)
+            break
+    return out
